@@ -630,11 +630,6 @@ def pre_term(r):
     return "let T := %s in let C := %s in pre_check C T" % (r.t_pre, r.cfg)
 
 
-def known_term(r, idxs):
-    return "let T := %s in let C := %s in let O := %s in known_obs %s C T O [%s]" % (
-        r.t_pre, r.cfg, r.obs, r.prog, "; ".join("%d%%nat" % i for i in idxs))
-
-
 # --------------------------------------------------------------------------- injected runs and the model-free oracles
 
 ERRNOS = ["EIO", "ENOSPC", "EACCES"]
@@ -886,9 +881,9 @@ QUICK = [("new", "0004", False), ("version", "0002", True), ("dedup", "0004", Fa
 # every read call is failed: a plain version, the scenario with duplicates and orphans (rm_orphaned_files' existence / file tests),
 # the upgrade of a never committed object (find_files in stage_object_declaration)
 READ_ALL = [("version", "0004", False), ("dedup", "0004", False), ("upgrade_new", "0004", True)]
-READ_SAMPLED = [("version", "0002", True), ("new", "0002", True), ("upgrade", "0004", True), ("delete", "0002", False)]   # a third
+READ_SAMPLED = [("new", "0002", True), ("upgrade", "0004", True), ("delete", "0002", False)]   # a third
 WRITE_GRANULARITY = [("version", "0004", False), ("upgrade", "0004", True), ("upgrade_new", "0004", True), ("new", "0004", False)]
-IMPORTS = ["Base.Bytes", "Model.FsOps", "Model.FsTree", "Model.Commit", "Model.KnownC04", "Corr.CheckCommit"]
+IMPORTS = ["Base.Bytes", "Model.FsOps", "Model.FsTree", "Model.Commit", "Corr.CheckCommit"]
 CLS_NO = {"old": 0, "new": 1, "invalid": 2, "other": 3}
 
 
